@@ -73,6 +73,9 @@ Proof.
     apply zeros_len_z. apply Z.leb_gt in E. apply Z.mod_pos_bound. lia.
   - inversion H; subst. destruct ((b + pos) mod 2 =? 0); reflexivity.
   - destruct ((b + pos) mod 2 =? 1); inversion H; reflexivity.
+  - destruct (get_as_int 16 (b + pos + n)); simpl in H; try discriminate.
+    destruct (n <? 0) eqn:E; [discriminate|]. apply Z.ltb_ge in E. inversion H; subst.
+    rewrite zeros_length. lia.
 Qed.
 
 Lemma item_size_nonneg b pos it : 0 <= item_size b pos it.
@@ -168,6 +171,10 @@ Proof.
     rewrite (pos_mod_shift b1 b2 pos 2) in H2 by (lia || assumption). congruence.
   - left. split; [reflexivity|].
     destruct ((b1 + pos) mod 2 =? 1); [discriminate|]. destruct ((b2 + pos) mod 2 =? 1); [discriminate|]. congruence.
+  - left. split; [reflexivity|].
+    destruct (get_as_int 16 (b1 + pos + n)); simpl in H1; try discriminate.
+    destruct (get_as_int 16 (b2 + pos + n)); simpl in H2; try discriminate.
+    destruct (n <? 0); [discriminate|]. congruence.
 Qed.
 
 (* ---------- patch ---------- *)
